@@ -327,10 +327,22 @@ def main(ctx):
     prog, info = load(CRATES, src_only=SRC)
     ctx.extra['mir'] = info
     ctx.outside += ['to_lowercase Unicode behaviour', 'prefix_hex internals', 'the generic DID parser itself (third-party; C10)',
-                    'equality <=> (network, tag bytes) follows from lower-case normal form + default network omitted (argued, not solved)',
+                    'equality <=> (network, tag bytes) follows from lower-case normal form + default network omitted + derived comparison (the three are decided; the implication is argued)',
                     'one-position 75-byte strings under Kani (11 GB after 13 min in the design probe)']
     guarded(ctx, 'network name (M view)', 'M', lambda: network_name_m(ctx, prog))
     guarded(ctx, 'iota did audit', 'M', lambda: run(ctx, prog))
+    # "equal exactly when networks and tag bytes are equal" = derived (structural) comparison of the normal form: IotaDID and the
+    # CoreDID inside it compare / order / hash by the compiler-derived impls, not by a hand-written reading of their parts
+    import derives
+    guarded(ctx, 'structural comparison of IotaDID', 'M', lambda: derives.derived_impls(
+        ctx, prog, 'IotaDID/eq-ord-hash-are-the-derived-ones', r'identity_iota_core/src/did/iota_did\.rs', ['iota_did.rs'],
+        {'scenario': 'iota_did', 'cex': {'only': '[case]'}}, methods=('eq', 'ne', 'partial_cmp', 'cmp', 'hash')))
+
+    def core_cmp():
+        prog3, info3 = load(['identity_did'])
+        derives.derived_impls(ctx, prog3, 'CoreDID/eq-ord-hash-are-the-derived-ones', r'identity_did/src/did\.rs', ['did.rs'],
+                              {'scenario': 'iota_did', 'cex': {'only': '[case]'}}, methods=('eq', 'ne', 'partial_cmp', 'cmp', 'hash'))
+    guarded(ctx, 'structural comparison of CoreDID', 'M', core_cmp)
     if os.environ.get('VERIF_SKIP_K') != '1':
         guarded(ctx, 'network name on short strings', 'K', lambda: kani_part(ctx))
     # "without path, query or fragment" is decided on the generic DID gate that IotaDID::parse / try_from_core delegate to (C10's
